@@ -38,6 +38,7 @@ def make_frame(n: int, z_nulls: set, w_nulls: set, a_nulls: set, index_kind: str
     a = [None if k in a_nulls else ["x", "y"][k % 2] for k in range(n)]
     d = {"z": numpy.array(z, dtype=float), "w": numpy.array(w, dtype=float), "A": pandas.Categorical(a, categories=["x", "y"])}
     # the same null layouts in pandas' nullable extension dtypes (pd.NA instead of NaN)
+    d["v"] = numpy.array([-1.0 if k in z_nulls else 2.0 + k for k in range(n)], dtype=float)  # never null itself; log / sqrt of it is
     d["q"] = pandas.array([pandas.NA if k in z_nulls else 30 + k for k in range(n)], dtype="Int64")
     d["f"] = pandas.array([pandas.NA if k in w_nulls else bool(k % 2) for k in range(n)], dtype="boolean")
     if tag is not None:
@@ -58,6 +59,9 @@ FORMULAS = {
     "t + q": {"q"},
     "t ~ q + f": {"q", "f"},
     # a factor whose values arrive as a plain Python LIST through the context (null_handling has its own branch for lists)
+    # nulls MADE by evaluation on a frame that holds no null at all (log of a negative number)
+    "t + np.log(v)": {"v"},
+    "t ~ np.log(v) | np.sqrt(v)": {"v"},
     "t + z + L": {"z"},
     "t ~ L + w | z": {"z", "w"},
 }
@@ -72,7 +76,7 @@ def null_rows(formula_vars: set, z_nulls, w_nulls, a_nulls) -> set:
         out |= set(w_nulls)
     if "A" in formula_vars:
         out |= set(a_nulls)
-    if "q" in formula_vars:
+    if "q" in formula_vars or "v" in formula_vars:
         out |= set(z_nulls)
     if "f" in formula_vars:
         out |= set(w_nulls)
@@ -153,6 +157,8 @@ def check_config(cfg: dict, tag, tag_eq, ctx_for=lambda tag: None):
     zs, ws, as_ = set(cfg["z_nulls"]), set(cfg["w_nulls"]), set(cfg["a_nulls"])
     ctx = ctx_for(tag)
     df = make_frame(n, zs, ws, as_, cfg["index"], tag=None if ctx is not None else tag)
+    if FORMULAS[cfg["formula"]] == {"v"}:
+        df = df.drop(columns=["z", "w", "A", "q", "f"])  # the frame itself is complete: every null of this build comes from evaluation
     if "L" in cfg["formula"]:
         ctx = {**(ctx or {}), "L": L_VALUES(n)}
     caller = None if cfg["caller"] is None else set(cfg["caller"])
